@@ -99,3 +99,63 @@ def lookup_sequences(maxlen):
         return n_eval, bad
     finally:
         shutil.rmtree(root, ignore_errors=True)
+
+
+def freshness_sequences(maxlen):
+    """op sequences {touch file (mtime + 2 s, new content), get_template} over 2 URIs, for collection_size in
+    {-1, 1, 2, 4} x filesystem_checks on/off: with checks on a get after a touch returns the new content, without
+    a change the very same object; with checks off the loaded template keeps being returned"""
+    from mako.lookup import TemplateLookup
+    root = tempfile.mkdtemp(prefix="c14f_")
+    n_eval, bad = 0, []
+    try:
+        uris = ["a.html", "b.html"]
+        ops = [("get", u) for u in uris] + [("touch", u) for u in uris]
+        for size in (-1, 1, 2, 4):
+            for fsc in (True, False):
+                for ln in range(1, maxlen + 1):
+                    for seq in itertools.product(ops, repeat=ln):
+                        n_eval += 1
+                        ver = {u: 0 for u in uris}
+                        mt = {u: 1000 for u in uris}
+                        for u in uris:
+                            p = os.path.join(root, u)
+                            open(p, "w").write("%s v0" % u)
+                            os.utime(p, (1000, 1000))
+                        lk = TemplateLookup(directories=[root], collection_size=size, filesystem_checks=fsc)
+                        loaded = {}          # uri -> (object, version it was compiled from)
+                        problem = None
+                        for op, u in seq:
+                            p = os.path.join(root, u)
+                            if op == "touch":
+                                ver[u] += 1
+                                mt[u] += 2
+                                open(p, "w").write("%s v%d" % (u, ver[u]))
+                                os.utime(p, (mt[u], mt[u]))
+                                continue
+                            t = lk.get_template(u)
+                            out = t.render()
+                            # compile time of a fresh load is "now" (far later than the simulated mtimes): stamp it down
+                            if u not in loaded or loaded[u][0] is not t:
+                                t.module._modified_time = mt[u]
+                            if fsc or u not in loaded or (size != -1 and loaded[u][0] is not t):
+                                exp = "%s v%d" % (u, ver[u]) if (fsc or u not in loaded or loaded[u][0] is not t) else None
+                            else:
+                                exp = "%s v%d" % (u, loaded[u][1])
+                            if fsc and out != "%s v%d" % (u, ver[u]):
+                                problem = "filesystem_checks on: get_template(%r) renders %r, the file holds v%d" % (u, out, ver[u])
+                            elif not fsc and size == -1 and u in loaded and loaded[u][0] is not t:
+                                problem = "filesystem_checks off: a loaded template was replaced"
+                            elif fsc and u in loaded and loaded[u][1] == ver[u] and size == -1 and loaded[u][0] is not t:
+                                problem = "nothing changed on disk, yet a different Template object was returned"
+                            if problem:
+                                break
+                            cur = int(out.rsplit("v", 1)[1])
+                            loaded[u] = (t, cur)
+                        if problem:
+                            bad.append({"collection_size": size, "filesystem_checks": fsc, "ops": [list(o) for o in seq], "problem": problem})
+                            if len(bad) > 3:
+                                return n_eval, bad
+        return n_eval, bad
+    finally:
+        shutil.rmtree(root, ignore_errors=True)
